@@ -207,10 +207,11 @@ def graph_replay(ctx, spec_dir, module, cfg, tag, replayer, proj_keys, header_fn
         ctx.tlc_violation(res, module + ":" + cfg)
         return res, None
     g = vlib.load_dot(dot)
-    try:
-        os.remove(dot)
-    except OSError:
-        pass
+    for junk in (dot, dot[:-4] + "_liveness.dot"):     # TLC also dumps the liveness graph next to it
+        try:
+            os.remove(junk)
+        except OSError:
+            pass
     # replace "generated" by the true number of edges of the dumped graph for this model
     res.model["edges"] = g.nedges()
     paths, covered, total = vlib.cover_paths(g, ctx.rng, max_paths=max_paths, want_terminal=terminal)
